@@ -16,6 +16,7 @@ import (
 
 	"github.com/sirupsen/logrus"
 
+	"github.com/taskctl/taskctl/internal/config"
 	"github.com/taskctl/taskctl/internal/vh/common"
 	"github.com/taskctl/taskctl/pkg/scheduler"
 	"github.com/taskctl/taskctl/pkg/task"
@@ -265,9 +266,68 @@ func build(cfg *Cfg) (*built, error) {
 		}
 		return scheduler.NewExecutionGraph(sts...)
 	}
+	if cfg.ViaConfig {
+		return buildViaConfig(cfg, b, r)
+	}
 	g, err := mk(&cfg.G, nil)
 	b.g = g
 	return b, err
+}
+
+// buildViaConfig builds the same graphs through the configuration builder (task and stage definitions ->
+// config.buildFromDefinition), the route every pipeline of a configuration file takes.
+func buildViaConfig(cfg *Cfg, b *built, r *fakeRunner) (*built, error) {
+	var tasks []string
+	pipes := map[string][]config.VerifSchedStage{}
+	var walk func(name string, g *GraphCfg, outer []string)
+	walk = func(name string, g *GraphCfg, outer []string) {
+		for _, i := range topo(g) {
+			s := g.Stages[i]
+			all := append(append([]string{}, outer...), s.Deps...)
+			st := config.VerifSchedStage{Name: s.Name, DependsOn: append([]string{}, s.Deps...), Condition: s.Cond, AllowFailure: s.Allow}
+			if s.Inner != nil {
+				st.Pipeline = "p_" + s.Name
+				walk(st.Pipeline, s.Inner, all)
+			} else {
+				st.Task = s.Name
+				tasks = append(tasks, s.Name)
+				r.fail[s.Name] = s.Fail
+				r.deps[s.Name] = all
+			}
+			pipes[name] = append(pipes[name], st)
+		}
+	}
+	walk("main", &cfg.G, nil)
+	graphs, err := config.VerifBuildPipelines(tasks, pipes)
+	if err != nil {
+		return b, err
+	}
+	for _, pn := range vrtSortedKeys(graphs) {
+		for _, sn := range vrtSortedStageNames(graphs[pn]) {
+			st, _ := graphs[pn].Node(sn)
+			b.stages[sn] = st
+		}
+	}
+	b.g = graphs["main"]
+	return b, nil
+}
+
+func vrtSortedKeys(m map[string]*scheduler.ExecutionGraph) []string {
+	var ks []string
+	for k := range m {
+		ks = append(ks, k)
+	}
+	sort.Strings(ks)
+	return ks
+}
+
+func vrtSortedStageNames(g *scheduler.ExecutionGraph) []string {
+	var ks []string
+	for k := range g.Nodes() {
+		ks = append(ks, k)
+	}
+	sort.Strings(ks)
+	return ks
 }
 
 // addAlts records, for every leaf of a shared inner pipeline, the dependencies it has when reached
